@@ -209,6 +209,94 @@ def run(P, tier="quick"):
     if nsm < 2:
         raise AnalysisBroken("_vnacal_new_add_common: measurement-matrix port-map look-ups not found (4 confirmed by hand)")
     R.counts["sorted_map_lookups"] = nsm
+    # PORTMAP-RANGE: in the loop that validates the caller's port map (the one that marks port_connected[port - 1]), the
+    # upper-bound refusals are written `if (index < G && port > extent) refuse`; together their guards must cover every
+    # index of the loop, otherwise a map entry beyond the guards indexes port_connected[] (and later the cell maps)
+    # unchecked.  G and the loop bound are integer expressions of the S dimensions; coverage is decided by evaluating
+    # them for every combination of their free quantities in 1..3 (single-definition locals expanded).
+    import itertools
+    from .r38_precision import atoms as _atoms, NotInt as _NotInt
+
+    def _ev(e, env, depth=0):
+        e = e.strip()
+        if e.k == "IntegerLiteral":
+            return e.val
+        if e.k == "DeclRefExpr":
+            if e.refkind == "enum":
+                return e.ref["val"]
+            sd = cn.single_def(e.refdecl) if (e.refkind == "local" and depth < 6) else None
+            if sd is not None:
+                return _ev(sd, env, depth + 1)
+            return env[("var", e.refdecl)]
+        if e.k == "MemberExpr":
+            return env[("mem", e.member)]
+        if e.k == "BinaryOperator":
+            a, b = _ev(e.kids[0], env, depth), _ev(e.kids[1], env, depth)
+            return {"+": a + b, "-": a - b, "*": a * b, "<": int(a < b), "<=": int(a <= b), ">": int(a > b), ">=": int(a >= b),
+                    "==": int(a == b), "!=": int(a != b)}[e.op]
+        if e.k == "ConditionalOperator":
+            return _ev(e.kids[1], env, depth) if _ev(e.kids[0], env, depth) else _ev(e.kids[2], env, depth)
+        raise _NotInt(e.text())
+    vloop = None
+    for n in fc.walk():
+        if n.k == "ForStmt" and n.kids[4] is not None and any(
+                m.k == "BinaryOperator" and m.op == "=" and m.kids[0].strip().k == "ArraySubscriptExpr" and
+                m.kids[0].strip().kids[0].strip().refname == "port_connected" and
+                m.kids[0].strip().kids[1].strip().k == "BinaryOperator" for m in n.kids[4].walk()):
+            vloop = n
+    if vloop is None:
+        raise AnalysisBroken("_vnacal_new_add_common: port-map validation loop (port_connected[port - 1] = true) not found")
+    cond = vloop.kids[2].strip()
+    ivar = cond.kids[0].strip()
+    bound = cond.kids[1]
+    guards, unguarded = [], 0
+    for n in vloop.kids[4].walk():
+        if n.k != "IfStmt":
+            continue
+        kids = [x for x in n.kids if x is not None]
+        if not any(m.k == "GotoStmt" for m in kids[1].walk()):
+            continue
+        c = kids[0].strip()
+        if c.k == "BinaryOperator" and c.op == "&&":
+            l, r = c.kids[0].strip(), c.kids[1].strip()
+            if l.k == "BinaryOperator" and l.op == "<" and l.kids[0].strip().refdecl == ivar.refdecl and \
+                    r.k == "BinaryOperator" and r.op == ">":
+                guards.append(l.kids[1])
+        elif c.k == "BinaryOperator" and c.op == ">" and "port" in c.kids[0].text():
+            unguarded += 1
+    key = "R31|%s|_vnacal_new_add_common|portmap-range" % FILE
+    if unguarded:
+        R.ok(key, PROPS | {"C03"})
+    elif not guards:
+        R.violated(Finding("R31", PROPS | {"C03"}, FILE, "_vnacal_new_add_common", "portmap-range",
+                           "no upper-bound refusal found in the port-map validation loop", vloop.line))
+    else:
+        at = {}
+        for e in [bound] + guards:
+            _atoms(e, cn, at)
+        names = sorted(at, key=str)
+        hole = None
+        try:
+            for vals in itertools.product((1, 2, 3), repeat=len(names)):
+                env = dict(zip(names, vals))
+                B = _ev(bound, env)
+                Gs = [_ev(g, env) for g in guards]
+                for i in range(B):
+                    if not any(i < g for g in Gs):
+                        hole = (dict((at[k].text(), v) for k, v in env.items()), i, B)
+                        break
+                if hole:
+                    break
+        except (_NotInt, KeyError) as e:
+            raise AnalysisBroken("_vnacal_new_add_common: port-map guard not an integer expression: %s" % e)
+        if hole is None:
+            R.ok(key, PROPS | {"C03"})
+        else:
+            R.violated(Finding("R31", PROPS | {"C03"}, FILE, "_vnacal_new_add_common", "portmap-range",
+                               "the upper-bound refusals of the port-map loop are guarded by %s, which leaves map entry %d of %d "
+                               "unchecked when %s: an out-of-range port there indexes port_connected[] and the cell maps" %
+                               (" / ".join("%s < %s" % (ivar.refname, g.text()) for g in guards), hole[1], hole[2],
+                                ", ".join("%s = %d" % kv for kv in sorted(hole[0].items()))), vloop.line))
     # MAPPED-INDEX: inside a loop whose counter i has a mapped companion (full = cond ? map[i] - 1 : i), the arrays of
     # the full port grid (those subscripted by some mapped companion) are subscripted by the companion, never by raw i
     mapped = {}          # raw index decl -> [(mapped VarDecl, loop)]
